@@ -212,13 +212,16 @@ func (x *schedExec) exec(line string) string {
 				return "error"
 			}
 			now := x.clk.Now()
-			x.c.Set(kv["k"], int(v), ttl)
-			x.mon.onSet(kv["k"], int(v), ttl, now)
+			k := realKey(kv["k"])
+			x.c.Set(k, int(v), ttl)
+			x.mon.onSet(k, int(v), ttl, now)
 			x.res.Hit("op:set")
+			hitKeyClass(x.res, k)
 			return "ok"
 		case "get":
-			v, ok := x.c.Get(kv["k"])
-			x.mon.onGet(kv["k"], ok, v, x.clk.Now())
+			k := realKey(kv["k"])
+			v, ok := x.c.Get(k)
+			x.mon.onGet(k, ok, v, x.clk.Now())
 			if ok {
 				x.res.Hit("op:get-hit")
 				return "hit v=" + strconv.Itoa(v)
@@ -226,8 +229,8 @@ func (x *schedExec) exec(line string) string {
 			x.res.Hit("op:get-miss")
 			return "miss"
 		case "del":
-			x.c.Delete(kv["k"])
-			x.mon.onDelete(kv["k"])
+			x.c.Delete(realKey(kv["k"]))
+			x.mon.onDelete(realKey(kv["k"]))
 			x.res.Hit("op:delete")
 			return "ok"
 		case "adv":
@@ -257,6 +260,11 @@ func (x *schedExec) exec(line string) string {
 			done := make(chan string, 1)
 			x.done[id] = done
 			ready := make(chan struct{})
+			// nothing else runs until the cleaner parks: this is the state its ForEach walks
+			storedBefore, nowBefore := x.c.VerifDump(), x.clk.Now()
+			if storedBefore == nil {
+				storedBefore = []ttlcache.VerifEntry[int]{}
+			}
 			go func() {
 				defer func() {
 					if r := recover(); r != nil {
@@ -296,8 +304,11 @@ func (x *schedExec) exec(line string) string {
 				return "timeout"
 			}
 			x.noteSnapshot(id, ev)
+			if kind == "cleanup" {
+				x.mon.onCleanupSnapshot(fmt.Sprintf("manual Cleanup (caller %d, parked between snapshot and bulk delete)", id), ev.keys, nowBefore, storedBefore)
+			}
 			x.res.Hit("op:cbegin-" + kind)
-			return "snap keys=" + strings.Join(ev.keys, ",")
+			return "snap keys=" + strings.Join(keyTokens(ev.keys), ",")
 		case "cfinish":
 			id64, ok := kv.i64("id")
 			id := int(id64)
@@ -326,8 +337,9 @@ func (x *schedExec) exec(line string) string {
 			}
 			x.bgParked = true
 			x.noteSnapshot(0, ev)
+			x.mon.onCleanupSnapshot("periodic Cleanup (parked between snapshot and bulk delete)", ev.keys, x.clk.Now(), nil)
 			x.res.Hit("op:bgsnap")
-			return "snap keys=" + strings.Join(ev.keys, ",")
+			return "snap keys=" + strings.Join(keyTokens(ev.keys), ",")
 		case "bgfinish":
 			ev := x.parked[0]
 			if !x.bgParked || ev == nil {
@@ -360,7 +372,7 @@ func (x *schedExec) exec(line string) string {
 		case "gbegin": // a Get parked between its map read and its clock read
 			id64, ok := kv.i64("id")
 			id := int(id64)
-			k := kv["k"]
+			k := realKey(kv["k"])
 			if !ok || id <= 0 || x.gets[id] != nil {
 				return "error"
 			}
@@ -410,7 +422,7 @@ func (x *schedExec) exec(line string) string {
 		case "gend":
 			id64, ok := kv.i64("id")
 			pg := x.gets[int(id64)]
-			if !ok || pg == nil || pg.key != kv["k"] {
+			if !ok || pg == nil || pg.key != realKey(kv["k"]) {
 				return "error"
 			}
 			delete(x.gets, int(id64))
@@ -435,7 +447,7 @@ func (x *schedExec) exec(line string) string {
 			if !ok || !ok1 || !ok2 || id <= 0 || v < 0 || x.sets[id] != nil {
 				return "error"
 			}
-			ps := &pendingSet{key: kv["k"], val: int(v), ttl: ttl, at: x.clk.Now(), done: make(chan string, 1)}
+			ps := &pendingSet{key: realKey(kv["k"]), val: int(v), ttl: ttl, at: x.clk.Now(), done: make(chan string, 1)}
 			ready := make(chan struct{})
 			go func() {
 				defer func() {
@@ -475,7 +487,7 @@ func (x *schedExec) exec(line string) string {
 		case "send":
 			id64, ok := kv.i64("id")
 			ps := x.sets[int(id64)]
-			if !ok || ps == nil || ps.key != kv["k"] {
+			if !ok || ps == nil || ps.key != realKey(kv["k"]) {
 				return "error"
 			}
 			delete(x.sets, int(id64))
@@ -824,6 +836,47 @@ func stopCases() []*Case {
 	return out
 }
 
+// unusual keys under the cleaners (always run): a live entry stored under an unusual-but-legal key
+// (empty string, NUL, invalid UTF-8, very long, …) next to an expired plain one, while (a) the periodic
+// cleaner, (b) a manual Cleanup is parked between snapshot and bulk delete and after it has finished.
+// "get k=<K>" before the Reset must always hit 7: nobody touches K.
+func unusualKeySchedCases() []*Case {
+	var out []*Case
+	adv := func(ns int64) string { return fmt.Sprintf("adv d=%d", ns) }
+	for _, K := range unusualKeys {
+		g := "get k=" + K
+		out = append(out, &Case{Mode: "sched", Lines: []string{
+			fmt.Sprintf("cnew max=0 t0=%d iv=%d", t0.UnixNano(), nsPerSecond),
+			"set k=" + K + " v=7 ttl=1000", "set k=zz v=1 ttl=1", adv(2 * nsPerSecond), "bgsnap", g, "bgfinish", g, "get k=zz", "dump",
+			adv(nsPerSecond), "bgsnap", "bgfinish", g, "dump", "stop"}})
+		out = append(out, &Case{Mode: "sched", Lines: []string{
+			fmt.Sprintf("cnew max=0 t0=%d iv=%d", t0.UnixNano(), 1000*nsPerSecond),
+			"set k=" + K + " v=7 ttl=1000", "set k=zz v=1 ttl=1", adv(2 * nsPerSecond), "cbegin id=1 kind=cleanup", g, "cfinish id=1", g, "get k=zz", "dump",
+			"cbegin id=2 kind=cleanup", "cfinish id=2", g, "cbegin id=3 kind=reset", "cfinish id=3", "get k=" + K, "dump", "stop"}})
+	}
+	return out
+}
+
+func runUnusualKeySched(res *lib.Result, drv *lib.Drv) {
+	for _, cs := range unusualKeySchedCases() {
+		outs := runSchedLines(cs, res)
+		K := strings.TrimPrefix(cs.Lines[1], "set k=")
+		K = K[:strings.IndexByte(K, ' ')]
+		resetSeen := false
+		for i, l := range cs.Lines {
+			resetSeen = resetSeen || strings.Contains(l, "kind=reset")
+			if l == "get k="+K && !resetSeen && outs[i] != "hit v=7" {
+				res.Violate("untouched-live-key-missed",
+					fmt.Sprintf("line %d: Get(%q) answered %q; the entry (v=7, ttl 1000 s, at most 3 s old) is live and nobody touched the key — only a cleaner ran", i, realKey(K), outs[i]), cs)
+			}
+		}
+		diff(drv, res, schedCorr, cs, outs)
+		res.Count(strings.Join(cs.Lines, "|"), true)
+		res.Hit("family:unusual-key-under-parked-cleaner")
+		res.Traces++
+	}
+}
+
 func genSched(r *lib.Rand, res *lib.Result, n int) (*Case, []string, *monitor) {
 	maxTTL := []int64{0, 0, 2, 4}[r.Intn(4)]
 	iv := int64(r.Range(2, 8)) * nsPerSecond / 2
@@ -849,6 +902,7 @@ func genSched(r *lib.Rand, res *lib.Result, n int) (*Case, []string, *monitor) {
 	cs.Lines = append(cs.Lines, fmt.Sprintf("cnew max=%d t0=%d iv=%d", maxTTL, t0.UnixNano(), iv))
 	outs = append(outs, "ok")
 	nk := r.Range(2, 3)
+	ks := pickKeySet(r, nk)
 	val, nextID := 0, 1
 	inflight := []int{}
 	type sp struct {
@@ -862,7 +916,7 @@ func genSched(r *lib.Rand, res *lib.Result, n int) (*Case, []string, *monitor) {
 		}
 	}
 	for i := 0; i < n; i++ {
-		k := keys[r.Intn(nk)]
+		k := ks[r.Intn(nk)]
 		switch p := r.Intn(100); {
 		case p < 20:
 			val++
@@ -942,7 +996,7 @@ func genSched(r *lib.Rand, res *lib.Result, n int) (*Case, []string, *monitor) {
 			emit("bgsnap")
 		}
 	}
-	for _, kk := range keys[:nk] {
+	for _, kk := range ks {
 		emit("get k=" + kk)
 	}
 	emit("dump")
@@ -988,6 +1042,7 @@ func runSched(f lib.Flags, res *lib.Result, drv *lib.Drv, r *lib.Rand) {
 		res.Hit("family:forced-concurrent-stop")
 		res.Traces++
 	}
+	runUnusualKeySched(res, drv)
 	n := 150
 	if f.Tier == "thorough" {
 		n = 2500
@@ -1141,6 +1196,7 @@ type freeKey struct {
 	name      string
 	started   atomic.Int64 // value number whose Set has started
 	completed atomic.Int64 // value number whose Set has returned
+	minExp    atomic.Int64 // smallest lower bound (unix ns) of the expiry of any Set of this key; 0 = never set
 }
 
 func runFree(f lib.Flags, res *lib.Result, r *lib.Rand) {
@@ -1171,6 +1227,20 @@ func freeRun(res *lib.Result, cs *Case, r *lib.Rand, withReset, long bool) {
 	var ops atomic.Int64
 	clk := ttlcache.NewVerifClock(t0)
 	var c *ttlcache.Cache[int]
+	const workers = 4
+	// static: set once with a TTL that outlasts the run, never touched again — among them the empty
+	// key (Go zero value), a NUL, invalid UTF-8 and a 4 KiB key
+	static := []string{"s0", "s1", "", "\x00", "\xff\xfe", strings.Repeat("k", 4096)}
+	isStatic := map[string]bool{}
+	for _, k := range static {
+		isStatic[k] = true
+	}
+	fks := make([]*freeKey, workers)
+	fkOf := map[string]*freeKey{}
+	for w := range fks {
+		fks[w] = &freeKey{name: fmt.Sprintf("w%d", w)}
+		fkOf[fks[w].name] = fks[w]
+	}
 	verifhook.Set(func(name string, args ...any) {
 		if len(args) < 2 {
 			return
@@ -1179,6 +1249,25 @@ func freeRun(res *lib.Result, cs *Case, r *lib.Rand, withReset, long bool) {
 			return
 		}
 		ks, _ := args[1].([]string)
+		if strings.Contains(name, "cleanup") {
+			// "Cleanup removes only entries that have expired": every key handed to the bulk delete must
+			// have held an entry whose expiry lies before the clock value read now (≥ the Cleanup's own reading)
+			hookNow := clk.Now().UnixNano()
+			for _, k := range ks {
+				res.Hit("monitor:cleanup-snapshot-key-checked")
+				fk := fkOf[k]
+				switch {
+				case isStatic[k]:
+					res.Violate("cleanup-snapshot-holds-unexpired-key", fmt.Sprintf("free run: a Cleanup hands the untouched key %q (ttl 1e6 s, at most minutes old) to its bulk delete (list: %q)", k, shortKeys(ks)), cs)
+				case fk == nil:
+					res.Violate("cleanup-snapshot-holds-unexpired-key", fmt.Sprintf("free run: a Cleanup hands %q to its bulk delete, a key nobody ever set (list: %q)", k, shortKeys(ks)), cs)
+				default:
+					if me := fk.minExp.Load(); me == 0 || me >= hookNow {
+						res.Violate("cleanup-snapshot-holds-unexpired-key", fmt.Sprintf("free run: a Cleanup at %d hands %q to its bulk delete although the earliest expiry any Set of that key can have stamped is %d (0 = never set)", hookNow, k, me), cs)
+					}
+				}
+			}
+		}
 		g := goid()
 		mu.Lock()
 		cr := cur[g]
@@ -1220,8 +1309,6 @@ func freeRun(res *lib.Result, cs *Case, r *lib.Rand, withReset, long bool) {
 		return false
 	}
 
-	const workers = 4
-	static := []string{"s0", "s1"}
 	for _, k := range static {
 		c.Set(k, 99, 1<<40) // capped to MaxTTL = 1e6 s: live for the whole run (simulated time stays far below)
 	}
@@ -1258,10 +1345,6 @@ func freeRun(res *lib.Result, cs *Case, r *lib.Rand, withReset, long bool) {
 		viols = append(viols, viol{id, what})
 		vmu.Unlock()
 	}
-	fks := make([]*freeKey, workers)
-	for w := range fks {
-		fks[w] = &freeKey{name: fmt.Sprintf("w%d", w)}
-	}
 	for w := 0; w < workers; w++ {
 		wg.Add(1)
 		wr := r.Fork()
@@ -1284,6 +1367,10 @@ func freeRun(res *lib.Result, cs *Case, r *lib.Rand, withReset, long bool) {
 					v := own.started.Add(1)
 					ttl := int64(wr.Range(1, 2))
 					ls := &lastSet{val: v, ttl: ttl, tb: clk.Now(), s0: seq.Add(1)}
+					// lower bound of the expiry this Set stamps (its own clock read comes later)
+					if lb := ls.tb.Add(time.Duration(ttl) * time.Second).UnixNano(); own.minExp.Load() == 0 || lb < own.minExp.Load() {
+						own.minExp.Store(lb)
+					}
 					c.Set(own.name, int(v), ttl)
 					ls.ta, ls.s1 = clk.Now(), seq.Add(1)
 					own.completed.Store(v)
@@ -1367,17 +1454,18 @@ func freeRun(res *lib.Result, cs *Case, r *lib.Rand, withReset, long bool) {
 					res.Hit("free:foreign-get")
 				case p < 90: // untouched static key
 					k := static[wr.Intn(len(static))]
+					kq := strconv.Quote(shortKeys([]string{k})[0])
 					if v, ok := c.Get(k); !withReset && (!ok || v != 99) {
 						if stillStored(k, 99) {
 							_, rexp, rok := c.VerifMapGet(k)
 							v2, ok2 := c.Get(k)
 							if rok && !ok2 && rexp.After(clk.Now()) {
-								report("untouched-live-key-missed", fmt.Sprintf("Get(%s) keeps missing although the map lookup finds the untouched entry and it expires at %s (now %s)", k, showTime(rexp), showTime(clk.Now())))
+								report("untouched-live-key-missed", fmt.Sprintf("Get(%s) keeps missing although the map lookup finds the untouched entry and it expires at %s (now %s)", kq, showTime(rexp), showTime(clk.Now())))
 							} else {
-								report("free-run-lookup-missed-stored-entry", fmt.Sprintf("Get(%s) = (%d,%v) although nobody touched the key, it is live and still stored; raw map lookup ok=%v, retry = (%d,%v)", k, v, ok, rok, v2, ok2))
+								report("free-run-lookup-missed-stored-entry", fmt.Sprintf("Get(%s) = (%d,%v) although nobody touched the key, it is live and still stored; raw map lookup ok=%v, retry = (%d,%v)", kq, v, ok, rok, v2, ok2))
 							}
 						} else {
-							report("untouched-live-key-missed", fmt.Sprintf("Get(%s) = (%d,%v) while cleaners ran; nobody touched the key, it is live, and it is no longer stored", k, v, ok))
+							report("untouched-live-key-missed", fmt.Sprintf("Get(%s) = (%d,%v) while cleaners ran; nobody touched the key, it is live, and it is no longer stored", kq, v, ok))
 						}
 					}
 					res.Hit("free:static-get")
